@@ -341,11 +341,21 @@ def reportBuffered (fwd : Bool) (amb : Ambient) (ov : Overrides) : List Diag →
         let stored := m.take (room - 1)
         let used' := min LibErrors.ERROR_MAX_SPACE (r.used + m.length) + (if r.used + m.length < LibErrors.ERROR_MAX_SPACE then 1 else 0)
         let r0 : BufRun := { r with heap := heapInsert r.heap ⟨d.line, stored⟩, used := used', occurred := r.occurred || isErr }
-        if severityOf d.code ≥ LibErrors.SEVERITY_EXIT ∨ used' + LibErrors.ERROR_MAX_STRLEN > LibErrors.ERROR_MAX_SPACE
-            ∨ r0.heap.size = LibErrors.ERROR_MAX_ERRORS then
+        let full := decide (used' + LibErrors.ERROR_MAX_STRLEN > LibErrors.ERROR_MAX_SPACE ∨ r0.heap.size = LibErrors.ERROR_MAX_ERRORS)
+        if severityOf d.code ≥ LibErrors.SEVERITY_EXIT ∨ (LibErrors.bufferFullEndsRun ∧ full) then
           let r1 := flushInto r0
           { r1 with halt := some (if severityOf d.code ≥ LibErrors.SEVERITY_DUMP then .abort else .exit LibErrors.failStatus) }
+        else if full then
+          -- the buffer is full: print what it holds, sorted by line, and go on collecting
+          reportBuffered fwd amb ov ds (flushInto r0)
         else reportBuffered fwd amb ov ds r0
+
+/-- the end of a buffered run that was not cut short: `EXPRESS_fail` always flushes, `EXPRESS_succeed` when the code does
+    (regenerated `succeedFlushes`; otherwise the buffered warnings of a run without errors are lost) -/
+def finishBuffered (r : BufRun) : BufRun :=
+  match r.halt with
+  | some _ => r
+  | none => if r.occurred || LibErrors.succeedFlushes then flushInto r else { r with heap := #[], used := 0 }
 
 /-! ## `fedex.c main`: phases, gates, exit status -/
 
